@@ -36,6 +36,7 @@ func VH_C19_updown() {
 	w0 := &vFailWriter{}
 	vAssert("C19.updown.no-failure-no-error", run(w0) == nil && w0.n > 0)
 	k := 1 + vChoice("k", w0.n)
+	vRaceDetect()
 	vSchedExplore(vParam("DEV"))
 	err := run(&vFailWriter{failAt: k})
 	vAssert("C19.updown.failed-write-is-reported", err != nil)
